@@ -49,7 +49,7 @@ def run(ck: Check) -> None:
     ck.floor("K2", 8)
     ck.floor("K3", 5)
     ck.floor("K4", 5)
-    ck.floor("K5", 2)
+    ck.floor("K5", 1)
     ck.floor("K6", 2)
 
 
@@ -946,7 +946,14 @@ def k5(ck: Check) -> None:
         for n in own_walk(fm.f.node):
             if isinstance(n, ast.Call) and callee_name(n) == "feedback_vertex_set" and isinstance(n.func, ast.Name):
                 par = call_arg(n, 1, "parity")
-                ok = par is None or is_none(par) or (isinstance(par, ast.Constant) and par.value == "negative")
+                def _par_ok(p_) -> bool:
+                    if isinstance(p_, ast.IfExp):       # "negative" if small else None
+                        return _par_ok(p_.body) and _par_ok(p_.orelse)
+                    if isinstance(p_, ast.Name):
+                        vd_ = fm.value_defs(p_.id, fm.cfgn(n))
+                        return bool(vd_) and all(v_ is not None and _par_ok(v_) for _d, v_ in vd_)
+                    return p_ is None or is_none(p_) or (isinstance(p_, ast.Constant) and p_.value == "negative")
+                ok = _par_ok(par)
                 probs = [] if ok else [f"feedback vertex set computed with parity={text(par)}: negative cycles may stay "
                                        f"uncovered, so complex attractors can have no candidate"]
                 sub = call_arg(n, 2, "subgraph")
